@@ -96,6 +96,7 @@ def check_c06(tier, replay=None):
     states = transitions = 0
     cases, exps = [], []
     streams = {}
+    finals = {}     # per stream: the model's state once every byte has arrived (dead?, messages delivered)
     for tag, menu, mi, cuts in plans:
         dump = os.path.join(outdir(pid), 'fs_%s.dump' % tag)
         res = run_tlc('MC_FrameStream', fs_cfg(pid, tag, menu, mi, cuts), pid, workers=8 if tier == 'quick' else 12,
@@ -116,6 +117,9 @@ def check_c06(tier, replay=None):
             cases.append(case)
             exps.append(exp)
             streams.setdefault(tuple(st['items']), data)
+            if st['pos'] == len(data) and not st['eof']:
+                finals[(tag, tuple(st['items']))] = (st['dead'], st['delivered'])
+            exp['_key'] = (tag, tuple(st['items']))
         os.remove(dump)
     # all splittings outright for short streams (every subset of byte positions)
     n_tr = len(cases)
@@ -127,6 +131,13 @@ def check_c06(tier, replay=None):
         for mask in range(1 << (n - 1)):
             cuts = [i + 1 for i in range(n - 1) if mask >> i & 1] + [n]
             allsplit.append(({'op': 'stream', 'bytes': d.hex(), 'cuts': cuts, 'eof': False}, it))
+    # The property does not say at which byte a malformed stream ends the connection.  The implementation may end it
+    # earlier than the model does, provided the model ends it too on this very stream and delivers no further message
+    # before that: then nothing was lost and the stream was doomed at that point.
+    for e in exps:
+        fin = finals.get(e.pop('_key'))
+        if fin and fin[0] and fin[1] == e['delivered']:
+            e['doomed'] = True
     obs = run_mbt(cases + [c for c, _ in allsplit])
     agree = 0
     for c, e, o in zip(cases, exps, obs[:n_tr]):
